@@ -32,6 +32,8 @@ pub enum EvKind {
     CubeT(f64),
     /// g = tanh(k (t - c)): a smoothed switch
     TanhT(f64, f64),
+    /// g = sin(w (t - o) + 0.3): an oscillation counted from a far time origin o
+    SinAt(f64, f64),
 }
 
 #[derive(Clone, Debug)]
@@ -72,6 +74,7 @@ impl EventSpec {
                 EvKind::ExpY(i, c, k) => (k * (y[i] - c)).exp() - 1.0,
                 EvKind::CubeT(c) => (t - c) * (t - c) * (t - c),
                 EvKind::TanhT(c, k) => (k * (t - c)).tanh(),
+                EvKind::SinAt(w, o) => (w * (t - o) + 0.3).sin(),
             }
     }
     /// Lipschitz bound of g along the trajectory in t, given a bound on |y'| and |y|.
@@ -89,6 +92,7 @@ impl EventSpec {
                 // (t - c)^3 within 4e-12 of its root is below any bound worth stating: 1 is generous
                 EvKind::CubeT(_) => 1.0,
                 EvKind::TanhT(_, k) => k.abs(),
+                EvKind::SinAt(w, _) => w.abs(),
             }
     }
     pub fn describe(&self) -> String {
